@@ -77,6 +77,7 @@ type ReplicaSession struct {
 	mu              sync.Mutex                                  // Protects session state; never held while sending
 	sendMu          sync.Mutex                                  // Serialises sends on Stream; the only lock held while the transport may block
 	outbox          chan *proto.WALStreamResponse               // Pushes from the write path, sent by the session's StreamWAL goroutine (nil if there is none)
+	nextSend        uint64                                      // Next sequence number to put on the stream (0: not tracked, send after LastAckSequence)
 }
 
 // sessionOutboxSize bounds the pushes queued for one replica. When a replica
@@ -318,6 +319,7 @@ func (p *Primary) StreamWAL(
 		LastActivity:    time.Now(),
 		ListenerAddress: listenerAddress,
 		outbox:          make(chan *proto.WALStreamResponse, sessionOutboxSize),
+		nextSend:        lastAckForStart(req.StartSequence) + 1,
 	}
 
 	// Determine compression support
@@ -353,7 +355,7 @@ func (p *Primary) StreamWAL(
 
 	// Send initial entries if starting from a specific sequence
 	if req.StartSequence > 0 {
-		if err := p.sendInitialEntries(session); err != nil {
+		if err := p.sendUpdatedEntries(session); err != nil {
 			return fmt.Errorf("failed to send initial entries: %w", err)
 		}
 	}
@@ -371,7 +373,30 @@ func (p *Primary) StreamWAL(
 			// Context was canceled, exit
 			return ctx.Err()
 		case response := <-session.outbox:
-			// An entry pushed by the write path
+			// An entry pushed by the write path. The stream carries the log
+			// in order: a push is sent only if it is the next thing the
+			// replica is due. One that is ahead (an earlier push was dropped,
+			// or the replica is still catching up) is left to the catch-up,
+			// which reads the log from the cursor; one that is behind has
+			// been sent already.
+			if len(response.Entries) > 0 {
+				first := response.Entries[0].SequenceNumber
+				last := response.Entries[len(response.Entries)-1].SequenceNumber
+				session.mu.Lock()
+				next := session.nextSend
+				if first == next {
+					session.nextSend = last + 1
+				}
+				session.mu.Unlock()
+				if first > next {
+					if err := p.sendUpdatedEntries(session); err != nil {
+						log.Error("Failed to send updated entries: %v", err)
+					}
+				}
+				if first != next {
+					continue
+				}
+			}
 			if err := session.transmit(response); err != nil {
 				log.Error("Error sending to replica %s: %v", session.ID, err)
 				session.mu.Lock()
@@ -388,10 +413,10 @@ func (p *Primary) StreamWAL(
 			// Check if we have new entries to send
 			currentSeq := p.currentWAL().GetNextSequence() - 1
 			session.mu.Lock()
-			lastAck := session.LastAckSequence
+			lastAck := session.nextSend - 1
 			session.mu.Unlock()
 			if currentSeq > lastAck {
-				log.Info("Checking for new entries: currentSeq=%d > lastAck=%d",
+				log.Info("Checking for new entries: currentSeq=%d > lastSent=%d",
 					currentSeq, lastAck)
 				if err := p.sendUpdatedEntries(session); err != nil {
 					log.Error("Failed to send updated entries: %v", err)
@@ -408,7 +433,10 @@ func (p *Primary) sendUpdatedEntries(session *ReplicaSession) error {
 	// kept: reading the log takes the log's mutex, under which writers push
 	// to this session, and sending may block.
 	session.mu.Lock()
-	nextSequence := session.LastAckSequence + 1
+	nextSequence := session.nextSend
+	if nextSequence == 0 {
+		nextSequence = session.LastAckSequence + 1
+	}
 	session.mu.Unlock()
 
 	log.Info("Sending updated entries to replica %s starting from sequence %d",
@@ -454,6 +482,13 @@ func (p *Primary) sendUpdatedEntries(session *ReplicaSession) error {
 	}
 
 	log.Info("Successfully sent %d entries to replica %s", len(protoEntries), session.ID)
+
+	// Advance the cursor, unless a negative acknowledgement moved it meanwhile
+	session.mu.Lock()
+	if session.nextSend == nextSequence {
+		session.nextSend = entries[len(entries)-1].SequenceNumber + 1
+	}
+	session.mu.Unlock()
 	return nil
 }
 
@@ -692,6 +727,21 @@ func (p *Primary) sendInitialEntries(session *ReplicaSession) error {
 
 // resendEntries resends WAL entries from the requested sequence to a replica
 func (p *Primary) resendEntries(session *ReplicaSession, fromSequence uint64) error {
+	// A session served by StreamWAL is sent to by its own goroutine only (a
+	// send may wait for the replica, which in turn waits for the answer to
+	// its negative acknowledgement): move the cursor back and let the
+	// catch-up resend in order.
+	if session.outbox != nil {
+		if currentSeq := p.currentWAL().GetNextSequence() - 1; fromSequence == 0 || fromSequence > currentSeq {
+			return fmt.Errorf("no entries found from sequence %d", fromSequence)
+		}
+		session.mu.Lock()
+		session.nextSend = fromSequence
+		session.LastActivity = time.Now()
+		session.mu.Unlock()
+		return nil
+	}
+
 	// Similar to sendInitialEntries but for handling NACKs
 	entries, err := p.getWALEntriesFromSequence(fromSequence)
 	if err != nil {
